@@ -213,9 +213,13 @@ def run(chk):
         chk.search_cases += 1
         chk.count("gibbs_coupling_scan")
         try:
-            got = [quiet(oqupy.gibbs_tempo_compute, oqupy.System(H), b_, oqupy.GibbsParameters(n_steps=nst, epsrel=1e-10), progress_type="silent") for b_ in baths]
-            want = [quiet(oqupy.gibbs_tempo_compute, oqupy.System(H), oqupy.Bath(o, oqupy.PowerLawSD(alpha=al, **kw)), oqupy.GibbsParameters(n_steps=nst, epsrel=1e-10),
-                          progress_type="silent") for al in strengths]
+            # one System object serves the whole scan, with a different number of imaginary-time slices in every computation
+            shared_system = oqupy.System(H)
+            nsts = [nst, nst + 3, nst + 1]
+            info["n_steps"] = nsts
+            got = [quiet(oqupy.gibbs_tempo_compute, shared_system, b_, oqupy.GibbsParameters(n_steps=n_, epsrel=1e-10), progress_type="silent") for b_, n_ in zip(baths, nsts)]
+            want = [quiet(oqupy.gibbs_tempo_compute, oqupy.System(H), oqupy.Bath(o, oqupy.PowerLawSD(alpha=al, **kw)), oqupy.GibbsParameters(n_steps=n_, epsrel=1e-10),
+                          progress_type="silent") for al, n_ in zip(strengths, nsts)]
         except Exception as ex:
             chk.fail("gibbs-raises", f"GibbsTempo raises {ex!r}", info)
             continue
